@@ -51,6 +51,8 @@ struct SimAlloc {
   bool fail_from = false;    // also fail every later attempt
   bool junk = true;          // fill fresh memory with junk_byte-derived pattern
   uint8_t junk_byte = 0xA5;
+  bool junk_by_address = false;   // junk bytes are a function of their address (with the deterministic heap: of the allocation history), so that two
+                                  // executions that read uninitialised memory do not agree by accident; implies junk
   bool always_move = false;  // realloc always moves
   size_t pad = 0;            // extra bytes per allocation (address layout perturbation)
   bool track = true;         // keep the live table
